@@ -21,7 +21,7 @@ type c17Replay struct {
 	Job     harness.Job `json:"job"`
 }
 
-var c17Variants = []sut.Variant{sut.AllVariants[0], sut.AllVariants[1], sut.AllVariants[3]}
+var c17Variants = []sut.Variant{sut.AllVariants[0], sut.AllVariants[1], sut.AllVariants[2], sut.AllVariants[3]}
 
 func c17Grammars(tier string) []*corpus.Grammar {
 	all := parserGrammars(true, true)
@@ -104,7 +104,7 @@ func RunC17(c *Ctx) error {
 		return Harnessf("build: %v", err)
 	}
 	grammars := c17Grammars(c.Tier)
-	variants := c17Variants[:2]
+	variants := c17Variants[:3] // plain, -zip, -debug_lexer -debug_parser
 	if c.Tier == "thorough" {
 		variants = c17Variants
 	}
@@ -148,8 +148,12 @@ func RunC17(c *Ctx) error {
 		r := prng.Sub(c.Seed, "c17/"+drv.Grammar.ID, 0)
 		pool := newPool(drv.Grammar, r, drv.HasLexer, false)
 		var jobs []harness.Job
-		for _, v := range drv.Variants {
-			for k := 0; k < nJobs; k++ {
+		for vi, v := range drv.Variants {
+			n := nJobs
+			if c.Tier == "quick" && vi >= 2 {
+				n = nJobs / 3 // the debug variants print a lot: fewer jobs
+			}
+			for k := 0; k < n; k++ {
 				nt := 2 + r.Intn(5)
 				job := harness.Job{ID: len(jobs), Kind: "c17", Variant: v.Name, Knob: stackKnobs[r.Intn(len(stackKnobs))]}
 				for t := 0; t < nt; t++ {
